@@ -43,8 +43,12 @@ package combinator
 //@   captures (parsers []parsley.Parser)
 //@   requires len(parsers) >= 1 && forall k int :: 0 <= k && k < len(parsers) ==> parsers[k] != nil
 //@   include  parsley.Parser.Parse
+//@   ghost_at call#2 parsley.GhostLastNode = lastres[parsley.Node](0)
+//@   ensures  [E5-first;C01,C04] n != nil ==> same(n, parsley.GhostLastNode)
+//@   ensures  [E5-none;C01,C04] n == nil ==> parsley.GhostLastNode == nil
 //@ loop 1 (k rangeindex, cp data.IntSet, err parsley.Error, notFoundErr parsley.Error)
 //@   invariant 0 <= k && k <= len(parsers)
+//@   invariant [first-wins;C01,C04] k >= 1 ==> parsley.GhostLastNode == nil
 //@   invariant parsley.WfCtx(ctx) && parsley.WfCache(ctx) && parsley.InInput(ctx.Reader(), pos) && ghostIn(ctx, lrc, pos)
 //@   invariant data.Inv(cp) && errOK(ctx, err, pos) && errOK(ctx, notFoundErr, pos)
 //@   invariant [PC1] k >= 1 && err == nil && notFoundErr == nil ==> parsley.GhostCurtailed
